@@ -593,6 +593,11 @@ class DrvDomain(Domain):
                     self.event("oob-list", site, "%s.back() on an empty list" % this.name)
                     return Cell(Pair(S("OOB", this.name), S("OOB", this.name)) if "errors" in this.name else S("OOB", this.name))
                 return Cell(this.items[-1], this.name + ".back()")
+            if m == "front":
+                if not this.items:
+                    self.event("oob-list", site, "%s.front() on an empty list" % this.name)
+                    return Cell(Pair(S("OOB", this.name), S("OOB", this.name)) if "errors" in this.name else S("OOB", this.name))
+                return Cell(this.items[0], this.name + ".front()")
             if m == "resize" or m == "reserve":
                 return None
         if isinstance(this, Pair):
